@@ -19,3 +19,28 @@ Example combine_value :
 Proof. vm_compute. reflexivity. Qed.
 Example categorical_value : categories [5; 3; 5; 9] = [3; 5; 9] /\ codes [5; 3; 5; 9] = [1; 0; 1; 2].
 Proof. split; reflexivity. Qed.
+
+(* ---- round 4: views as numpy reads them, histories, categorical objects ---- *)
+Example view_int_drops_axis : view_shape_full [3; 4] (Some [VIInt 1]) = Some [4].
+Proof. vm_compute. reflexivity. Qed.
+Example view_bool_adds_axis : view_shape_full [3; 4] (Some [VIBool true]) = Some [1; 3; 4].
+Proof. vm_compute. reflexivity. Qed.
+Example view_false_adds_empty_axis : view_shape_full [3; 4] (Some [VISlice (Slice None None None); VIBool false]) = Some [3; 0; 4].
+Proof. vm_compute. reflexivity. Qed.
+Example view_separated_advanced_go_first :
+  view_shape_full [3; 4; 2] (Some [VIInt 1; VISlice (Slice None None None); VIBool true]) = Some [1; 4; 2].
+Proof. vm_compute. reflexivity. Qed.
+Example view_ellipsis_none : view_shape_full [3; 4; 2] (Some [VIEllipsis; VINone; VIInt 0]) = Some [3; 4; 1].
+Proof. vm_compute. reflexivity. Qed.
+Example view_none_is_whole : view_shape_full [3; 4] None = Some [3; 4].
+Proof. reflexivity. Qed.
+Example py_equal_views : py_eq_view [VIInt 1] [VIBool true] = true /\ np_eq_view [VIInt 1] [VIBool true] = false.
+Proof. split; reflexivity. Qed.
+(* a history: build, read the codes, re-wrap without copy with other categories, read both objects *)
+Example cat_history_value :
+  let '(h, rs) := crun empty_heap [CNew [1; 0; 2; 0] None; CCodes 0; CRewrap 0 false (Some [2; 1; 0]); CCodes 1; CCodes 0; CCats 0] in
+  rs = [RObj 0; RVals [1; 0; 2; 0]; RObj 1; RVals [1; 2; 0; 2]; RVals [1; 0; 2; 0]; RVals [0; 1; 2]]
+  /\ map o_buf (h_objs h) = [0%nat; 0%nat].
+Proof. vm_compute. split; reflexivity. Qed.
+Example rewrap_hyp : Nat.lt 0 (length (h_objs (fst (crun empty_heap [CNew [1; 0; 2; 0] None; CCodes 0])))).
+Proof. vm_compute. constructor. Qed.
